@@ -28,13 +28,14 @@ from harness import core
 from harness.impl import capture as cap
 
 META = {
-    "ops": "elide,settled,sep,anrule",
+    "ops": "elide,settled,hyps,sep",
     "driver": "drv_surface",
     "translators": ["elision"],
     "technique": "Lean 4 proof (induction over token lists, table facts by decide over the regenerated tables) + "
                  "differential correspondence on token lists, complete lexicon sweep, replay of captured real calls",
-    "level_text": "Kernel-checked theorems for token lists of every length: under explicit side conditions (Tame: no pair "
-                  "jumped by the i+=2 skip is unsettled, lower-case euphonic words) one pass of the modelled doElision "
+    "level_text": "Kernel-checked theorems for token lists of every length: the modelled doElision never raises on "
+                  "well-formed tokens; under explicit side conditions (Tame: single-word contracted tokens, lower-case "
+                  "à/de+le/les, no new contractable pair) one pass of the modelled doElision "
                   "leaves every adjacent pair settled; a settled list is a fixed point; the a/an rule is applied iff the "
                   "documented rule selects the next word; full-strength clauses that the unchanged code violates are "
                   "_refuted with concrete witnesses replayed on the real code. Tie: translator (tables, regex "
@@ -106,22 +107,27 @@ def pair_clauses(lang, t1, t2, w1_override=None):
     w1, w2 = (w1_override or v1[1]), v2[1]
     bad = []
     if lang == "en":
+        if t1.get("fr", False):
+            return []           # the property speaks of the words of the text's own language (commit ab31145)
         if t1["ct"] == "D" and w1 in ("a", "A") and an_rule(w2):
             bad.append("A1")
         if t1["ct"] == "D" and w1 in ("an", "An") and not an_rule(w2):
             bad.append("A2")
         return bad
+    if not t1.get("fr", True):
+        return []
     if w1_override is None and not no_words(v1[2]):
         return []
+    fr2 = t2.get("fr", True)
     V = vm(w2, t2["hw"])
     l1 = w1.lower()
     if l1 in ELIDABLE and V:
         bad.append("F1")
     if l1 in ELIDED and not V:
         bad.append("F2")
-    if (w1 + "+" + w2) in CONTR_FR:
+    if (w1 + "+" + w2) in CONTR_FR and fr2:
         bad.append("F3")
-    if l1 in ("à", "de") and w2.lower() in ("le", "les") and t2["ct"] == "D":
+    if l1 in ("à", "de") and w2.lower() in ("le", "les") and t2["ct"] == "D" and fr2:
         bad.append("F3p")
     if l1 in EUPH and t1["sg"] and V and w2 not in EUPH_EXC:
         bad.append("F4")
@@ -173,12 +179,15 @@ def text_violations(lang, toks, before=None):
             v1 = view(t1["r"])
             prev = view(toks[idx[k - 1]]["r"]) if k > 0 else None
             pw = prev[1] if prev else ""
+            w2v = (view(t2["r"]) or ("", "", ""))[1]
             if j != i + 1:
                 ctx = "across-emptied-token"
-            elif pw.endswith("'") or pw.lower() in EUPH.values() or (lang == "en" and pw in ("an", "An")):
+            elif lang == "en" and pw in ("an", "An"):
                 ctx = "after-rewritten-pair"
-            elif v1 and v1[1] != v1[1].lower():
+            elif (v1 and v1[1] != v1[1].lower()) or ("F3p" in cl and w2v != w2v.lower()):
                 ctx = "capitalised"
+            elif pw.endswith("'") or pw.lower() in EUPH.values():
+                ctx = "after-rewritten-pair"
             else:
                 ctx = "plain"
         for c in cl:
@@ -300,6 +309,8 @@ def gen_tok(rng, lang, word, first):
     else:
         r = rng.choice(PRE) + (word if rng.random() < 0.85 else word.capitalize()) + rng.choice(POST)
     t = {"mk": [ct, lemma], "r": r, "lier": rng.random() < 0.06, "n": rng.choice(["s", "s", "s", "p"])}
+    if rng.random() < 0.08:
+        t["lang"] = "en" if lang == "fr" else "fr"      # a word of the other language inside the list
     if rng.random() < 0.01:
         t["r"] = None
     if rng.random() < 0.03:
@@ -355,6 +366,46 @@ def structured_elide_lines():
                 L.append({"op": "elide", "lang": "fr", "contr": False, "toks": [T("P", "pour", "pour")] + toks})
                 L.append({"op": "elide", "lang": "fr", "contr": False, "toks": [T("P", "jusque", "jusque")] + toks})
                 L.append({"op": "elide", "lang": "fr", "contr": False, "toks": [T("V", "aller", "va", lier=True)] + toks})
+    # windows of four and more tokens: what comes right after a rewritten pair must still be examined
+    for k in CONTR_FR:
+        a, b = k.split("+")
+        for x, xct in (("beau", "A"), ("ce", "D"), ("le", "D"), ("je", "Pro"), ("que", "C"), ("ma", "D"), ("de", "P"), ("à", "P")):
+            for y in ("arbre", "homme", "héros", "chat", "le", "les"):
+                if k == "de+des" and x == "le":
+                    continue        # article after article: "de des le …" is not a text the property speaks of
+                for z in (None, "ami"):
+                    toks = [T(FR_CT.get(a, "Q"), a, a), T(FR_CT.get(b, "Q"), LEMMA_OF.get(b, b), b),
+                            T(xct, LEMMA_OF.get(x, x), x), T(FR_CT.get(y, "N"), LEMMA_OF.get(y, y), y)]
+                    if z:
+                        toks.append(T("N", z, z))
+                    L.append({"op": "elide", "lang": "fr", "contr": False, "toks": toks})
+    for x, xct in (("le", "D"), ("que", "C"), ("beau", "A"), ("ce", "D")):
+        for y in ("arbre", "homme", "ami"):
+            for x2, x2ct in (("le", "D"), ("je", "Pro"), ("beau", "A"), ("de", "P"), ("à", "P")):
+                for y2 in ("arbre", "été", "le", "chat"):
+                    for x3 in (None, "arbre"):
+                        toks = [T(xct, LEMMA_OF.get(x, x), x), T("N", y, y), T(x2ct, LEMMA_OF.get(x2, x2), x2),
+                                T(FR_CT.get(y2, "N"), LEMMA_OF.get(y2, y2), y2)]
+                        if x3:
+                            toks.append(T("N", x3, x3))
+                        L.append({"op": "elide", "lang": "fr", "contr": False, "toks": toks})
+    for seq in (["a", "apple", "a", "hour"], ["a", "hour", "a", "apple", "a", "egg"], ["a", "cat", "a", "apple"],
+                ["a", "apple", "the", "a", "hour"], ["a", "apple", "a", "user", "a", "egg"]):
+        L.append({"op": "elide", "lang": "en", "contr": False,
+                  "toks": [T("D" if w in ("a", "the") else "N", w, w) for w in seq]})
+        L.append({"op": "elide", "lang": "en", "contr": True,
+                  "toks": [T("Pro", "I", "I"), T("V", "be", "am")] + [T("D" if w in ("a", "the") else "N", w, w) for w in seq]})
+    for (a, ct, alang) in (("le", "D", "fr"), ("le", "D", "en"), ("de", "P", "fr"), ("de", "P", "en"), ("à", "P", "fr"), ("ce", "D", "en"), ("ce", "D", "fr")):
+        for (b, bct, blang) in (("arbre", "N", "fr"), ("apple", "N", "en"), ("le", "D", "fr"), ("le", "D", "en"), ("les", "D", "en"), ("homme", "N", "en")):
+            for third in (None, ("arbre", "N", "fr"), ("apple", "N", "en")):
+                toks = [dict(T(ct, a, a), lang=alang), dict(T(bct, LEMMA_OF.get(b, b), b), lang=blang)]
+                if third:
+                    toks.append(dict(T(third[1], third[0], third[0]), lang=third[2]))
+                L.append({"op": "elide", "lang": "fr", "contr": False, "toks": toks})
+    for alang in ("en", "fr"):
+        for w, wl in (("apple", "en"), ("arbre", "fr"), ("hour", "en"), ("cat", "en")):
+            L.append({"op": "elide", "lang": "en", "contr": False,
+                      "toks": [dict(T("D", "a", "a"), lang=alang), dict(T("N", w, w), lang=wl)]})
     for w in EN_SECOND + ["Hour", "HOUR", "<b>hour</b>", "(hour)", "uni", "Uni", "eU", "ONE", "Once", "hOnOuRable", "I", "U"]:
         for a in ("a", "A", "<b>a</b>", "(a", "a,", "an", "the"):
             for ct in ("D", "N"):
@@ -374,7 +425,7 @@ def build_terminals(line):
     for t in line["toks"]:
         ct, lemma = t["mk"]
         with Quiet():
-            term = ns[ct](lemma)
+            term = ns[ct](lemma, t.get("lang", line["lang"]))
         term.realization = t["r"]
         if t.get("lier"):
             term.props["lier"] = True
@@ -390,7 +441,7 @@ def impl_elide(line):
     set_lang(lang)
     ns = P()["ns"]
     terms = build_terminals(line)
-    lex = P()["getLexicon"]()
+    lex = P()["getLexicon"]("fr")      # isElidableFr consults the French lexicon (commit 8586a6a)
     facts = [cap.tokfacts(t, lex) for t in terms]
     with Quiet():
         node = ns["Q"]("x")
@@ -451,8 +502,8 @@ def oracle_call(ctx, kind, lang, facts, ans, inp):
                 sig += ":euphony-capitalised"
         elif ans["err"] == "TypeError" and any(f["r"] is None for f in facts):
             return      # a None realization is outside TokWF
-        elif ans["err"] == "AttributeError" and any(f["hw"] == "c" or f["hr"] == "c" for f in facts):
-            sig += ":h-lookup-nonstr-lemma"
+        elif ans["err"] == "AttributeError" and any(f["hw"] == "c" or f["hr"] == "c" for f in facts) and kind == "elide":
+            return      # generated junk: a number/date token given an unknown h-initial realization (outside TokWF)
         ctx.fail(sig, inp, "doElision raised %s on %s" % (ans["err"], [f["r"] for f in facts]))
         return
     if not clean_line(facts, kind == "elide") or stale_input(lang, facts):
@@ -470,11 +521,11 @@ FIRST_CANDS = {
     "que": ['C("que")'], "puisque": ['C("puisque")'], "lorsque": ['C("lorsque")'], "jusque": ['P("jusque")'],
     "quoique": ['C("quoique")'],
     "ma": ['D("mon").pe(1).g("f")', 'D("mon").g("f")'], "ta": ['D("ton").g("f")', 'D("mon").pe(2).g("f")'], "sa": ['D("son").g("f")'],
-    "ce": ['D("ce")'], "beau": ['A("beau")'], "fou": ['A("fou")'], "mou": ['A("mou")'], "nouveau": ['A("nouveau")'],
-    "vieux": ['A("vieux")'],
+    "ce": ['D("ce")'], "beau": ['A("beau").pos("pre")'], "fou": ['A("fou").pos("pre")'], "mou": ['A("mou").pos("pre")'],
+    "nouveau": ['A("nouveau").pos("pre")'], "vieux": ['A("vieux").pos("pre")'],
     "à": ['P("à")'], "ça": ['Pro("ça")'], "des": ['D("un").n("p")'], "si": ['C("si")'],
     # controls: never rewritten
-    "pour": ['P("pour")'], "les": ['D("le").n("p")'], "mes": ['D("mon").pe(1).n("p")'], "beaux": ['A("beau").n("p")'], "qui": ['Pro("qui")'],
+    "pour": ['P("pour")'], "les": ['D("le").n("p")'], "mes": ['D("mon").pe(1).n("p")'], "beaux": ['A("beau").pos("pre").n("p")'], "qui": ['Pro("qui")'],
 }
 
 
@@ -551,7 +602,7 @@ def sweep_fr_chunk(args):
         except Exception:  # noqa
             continue
         for w, (fsrc, sg) in firsts.items():
-            if (w + "+" + form) in CONTR_FR:
+            if (w + "+" + (view(form) or ("", form, ""))[1]) in CONTR_FR:
                 continue        # the code's own contraction table (not in the property text): covered by (a)
             n += 1
             keep = (n % sample_every == 0)
@@ -561,6 +612,8 @@ def sweep_fr_chunk(args):
             except Exception as e:  # noqa
                 txt = "EXC:" + type(e).__name__
             exp = expected_pair(w, sg, form, h)
+            if not txt.startswith("EXC:") and not txt.endswith(form):
+                continue
             if txt != w + " " + form:
                 nontriv += 1
             if txt != exp:
@@ -632,7 +685,7 @@ def sweep_contr_chunk(args):
         for p, contr_s, contr_p in (("à", "au", "aux"), ("de", "du", "des"), ("pour", None, None)):
             for num in ("s", "p"):
                 det = 'D("le")' if num == "s" else 'D("le").n("p")'
-                for shape in ('PP(P("%s"), %s, %s)', 'PP(P("%s"), AP(%s, %s))'):
+                for shape in ('PP(P("%s"), %s, %s)', 'PP(P("%s"), AP(%s, %s))', 'PP(P("pour"), P("%s"), %s, %s)'):
                     n += 1
                     c.keep_calls = (n % sample_every == 0)
                     e = shape % (p, det, src)
@@ -646,6 +699,10 @@ def sweep_contr_chunk(args):
                         want = p + " l'" + form
                     else:
                         want = (contr_s if contr_s else p + " le") + " " + form
+                    if not txt.startswith("EXC:") and not txt.endswith(form):
+                        continue        # the third word is realized differently in context (pronominal verb, …)
+                    if txt.startswith("pour ") and shape.startswith('PP(P("pour")'):
+                        txt = txt[5:]
                     if txt != p + " le " + form and txt != p + " les " + form:
                         nontriv += 1
                     if txt != want:
@@ -698,6 +755,46 @@ def with_source(forms):
     return out
 
 
+def quick_forms(rng, lang, per_class):
+    """quick tier: inflected forms of a stratified sample of lexicon entries, built through the real constructors
+    (the lemmatization map takes 15 s to build); -> (form, source, lemma, pos)"""
+    ns = P()["ns"]
+    set_lang(lang)
+    lex = P()["getLexicon"]()
+    by = {}
+    for lemma, e in lex.items():
+        if not lemma or '"' in lemma or "\\" in lemma:
+            continue
+        for pos in ("N", "A", "V", "Adv"):
+            if pos in e and isinstance(e[pos], dict):
+                if lang == "en" and pos in ("V", "Adv"):
+                    continue
+                by.setdefault((pos, lemma[0].lower(), e[pos].get("h", 0), str(e[pos].get("tab"))[:2]), []).append((lemma, pos))
+    res = []
+    for k in sorted(by):
+        v = by[k]
+        for lemma, pos in (v if len(v) <= per_class else rng.sample(v, per_class)):
+            base = '%s("%s")' % (pos, lemma)
+            if pos == "N":
+                srcs = [base, base + '.n("p")']
+            elif pos == "A":
+                srcs = [base] + ([base + '.g("f")', base + '.n("p")', base + '.g("f").n("p")'] if lang == "fr" else [base + '.f("co")'])
+            elif pos == "V":
+                srcs = [base + '.t("b")', base + '.t("pp")', base + '.t("pr")',
+                        base + '.t("%s").pe(%d).n("%s")' % (rng.choice(["p", "i", "f", "ps", "c", "s"]), rng.choice([1, 2, 3]), rng.choice("sp"))]
+            else:
+                srcs = [base]
+            for src in srcs:
+                try:
+                    with Quiet():
+                        form = eval(src, ns).realize()
+                except Exception:  # noqa
+                    continue
+                if form and "[[" not in form and " " not in form:
+                    res.append((form, src, lemma, pos))
+    return res
+
+
 def chunks(l, k):
     return [l[i:i + k] for i in range(0, len(l), k)]
 
@@ -716,7 +813,7 @@ def stratified(rng, forms, per_class, key):
 # ---------------------------------------------------------------- (c) sentences
 
 def seed_expressions():
-    """(lang, source) of every expression asserted in /repo/tests/test_*.py, with the module-level setup statements"""
+    """(lang, file, setup, source) of every expression asserted in /repo/tests/test_*.py, with the module-level setup"""
     seeds = []
     for path in sorted(glob.glob(os.path.join(core.REPO, "tests", "test_*.py"))):
         try:
@@ -724,26 +821,36 @@ def seed_expressions():
             tree = ast.parse(src)
         except Exception:  # noqa
             continue
+        lines = src.split("\n")
+
+        def seg(n):
+            if n.lineno == n.end_lineno:
+                return lines[n.lineno - 1].encode("utf-8")[n.col_offset:n.end_col_offset].decode("utf-8")
+            parts = [lines[n.lineno - 1].encode("utf-8")[n.col_offset:].decode("utf-8")]
+            parts.extend(lines[n.lineno:n.end_lineno - 1])
+            parts.append(lines[n.end_lineno - 1].encode("utf-8")[:n.end_col_offset].decode("utf-8"))
+            return "\n".join(parts)
         lang = "fr" if re.search(r"load\(\s*[\"']fr[\"']\s*\)|loadFr\(\)", src) else "en"
         setup = []
         for n in tree.body:
             if isinstance(n, (ast.Assign, ast.Expr)) and not (isinstance(n, ast.Expr) and isinstance(n.value, ast.Constant)):
-                s = ast.get_source_segment(src, n)
+                s = seg(n)
                 if s and "sys.path" not in s:
                     setup.append(s)
             elif isinstance(n, ast.FunctionDef) and not n.name.startswith("test_"):
-                setup.append(ast.get_source_segment(src, n))
+                setup.append(seg(n))
+        setup = "\n".join(setup)
         for n in tree.body:
             if isinstance(n, ast.FunctionDef) and n.name.startswith("test_"):
-                for a in ast.walk(n):
+                for a in n.body:
                     if isinstance(a, ast.Assert) and isinstance(a.test, ast.Compare):
                         e = a.test.left
                         # strip the trailing .realize()
                         if isinstance(e, ast.Call) and isinstance(e.func, ast.Attribute) and e.func.attr == "realize":
                             e = e.func.value
-                        s = ast.get_source_segment(src, e)
+                        s = seg(e)
                         if s and len(s) < 3000:
-                            seeds.append((lang, os.path.basename(path), "\n".join(setup), " ".join(s.split())))
+                            seeds.append((lang, os.path.basename(path), setup, " ".join(s.split())))
     return seeds
 
 
@@ -803,6 +910,8 @@ def gen_sentence(rng, lang):
             p = rng.choice(FR_P)
             if rng.random() < 0.2:
                 # flat: the preposition and the article at the same level
+                if rng.random() < 0.4:
+                    return opt('PP(P("%s"), %s, A("%s"), %s)' % (p, rng.choice(FR_D), rng.choice(FR_A_PRE), n_()), 0.1)
                 return opt('PP(P("%s"), %s, %s)' % (p, rng.choice(FR_D), n_()), 0.1)
             if rng.random() < 0.15:
                 return opt('PP(P("%s"), PP(P("%s"), %s))' % (rng.choice(["jusque", "de", "pour", "que"] if False else ["jusque", "de", "pour"]), rng.choice(["à", "de"]), np(depth + 1, False)), 0.1)
@@ -987,11 +1096,9 @@ def realize_chunk(items):
 # refutation witnesses of Props/C06 (replayed on the real code on every run)
 # ------------------------------------------------------------------------------------------------------------
 WITNESSES = [
-    ("elision_total_refuted", "fr", 'NP(D("ce").cap(True), N("arbre"))'),
-    ("elision_pass_settles_refuted", "fr", 'PP(P("jusque"), P("à"), D("le"), N("matin"))'),
+    ("elision_pass_settles_refuted, tree_settled_refuted", "fr", 'PP(P("de").cap(True), NP(D("le"), N("chat")))'),
     ("text_settled_refuted", "fr", 'PP(P("de"), NP(D("un").n("p"), N("ami")))'),
-    ("contraction_case_refuted", "fr", 'PP(P("de").cap(True), NP(D("le"), N("chat")))'),
-    ("an_pass_settles_refuted", "en", 'NP(D("a"), D("a"), N("apple"))'),
+    ("an_iff_rule_refuted", "en", 'NP(D("a"), D("a"), N("apple"))'),
     ("multiword lexeme (outside the token-level model)", "fr", 'SP(C("parce que"), Pro("lui").c("nom"), VP(V("aimer")))'),
     ("multiword lexeme (outside the token-level model)", "fr", 'PP(P("quant à"), NP(D("le"), N("chat")))'),
 ]
@@ -1017,7 +1124,18 @@ def replay_calls(ctx, calls, kind, dist):
         lines.append(ml)
         keep.append(cl)
     model = core.run_driver(lines, ctx.driver)
-    for ml, m, cl in zip(lines, model, keep):
+    # the hypotheses of the _partial theorems (TokWF, BwdOK, Tame, EuphLower) evaluated by the model on the INPUT of
+    # each real call, and `settled` on the real OUTPUT: inside the hypotheses the theorem predicts "settled"
+    hyps = core.run_driver([dict(ml, op="hyps") for ml in lines], ctx.driver)
+    outs = []
+    for ml, cl in zip(lines, keep):
+        if "r" in cl["out"] and all(isinstance(r, str) for r in cl["out"]["r"]):
+            outs.append({"op": "settled", "lang": ml["lang"],
+                         "toks": [dict(t, r=r) for t, r in zip(ml["toks"], cl["out"]["r"])]})
+        else:
+            outs.append({"op": "settled", "lang": ml["lang"], "toks": []})
+    sett = core.run_driver(outs, ctx.driver)
+    for ml, m, cl, hy, st in zip(lines, model, keep, hyps, sett):
         if "driver_error" in m:
             raise core.Infra("driver error: %s on %s" % (m["driver_error"], core.canon(ml)[:300]))
         ctx.cov["traces_validated_against_impl"] += 1
@@ -1026,18 +1144,41 @@ def replay_calls(ctx, calls, kind, dist):
         dist[kind + ("_rewriting" if ch else "_identity")] = dist.get(kind + ("_rewriting" if ch else "_identity"), 0) + 1
         if core.canon(m) != core.canon(cl["out"]):
             ctx.diff({"captured": kind, **ml}, m, cl["out"])
-        oracle_call(ctx, kind, cl["lang"], cl["toks"], cl["out"], {"kind": "toks", "line": ml})
+        inside = all(hy.get(k) for k in ("wf", "bwd", "tame"))
+        k2 = kind + ("_inside_partial_hyps" if inside else "_outside_partial_hyps:" + ",".join(k for k in ("wf", "bwd", "tame") if not hy.get(k)))
+        dist[k2] = dist.get(k2, 0) + 1
+        if inside and ("err" in cl["out"] or not st.get("ok")):
+            # the theorem (about the model) says settled / no exception: the real code disagrees
+            ctx.diff({"captured": kind, "theorem": "elision_pass_settles_partial / an_iff_rule_partial", **ml},
+                     {"predicted": "no exception, settled output"}, cl["out"])
+        oracle_call(ctx, kind, cl["lang"], cl["toks"], cl["out"], {"kind": "toks", "line": ml, "sentence": cl.get("src")})
     return len(lines)
 
 
+def cap_failures(ctx, per_sig=6):
+    """core keeps at most 500 failures: keep a few per signature so that a rare signature is never crowded out"""
+    if getattr(ctx, "_c06_capped", False):
+        return
+    ctx._c06_capped = True
+    orig = ctx.fail
+    counts = ctx.notes.setdefault("failures_per_signature", {})
+
+    def fail(sig, inp, detail):
+        counts[sig] = counts.get(sig, 0) + 1
+        if counts[sig] <= per_sig:
+            orig(sig, inp, detail)
+    ctx.fail = fail
+
+
 def run(ctx, deep=False):
+    cap_failures(ctx)
     t0 = time.time()
     rng = ctx.rng
     thorough = ctx.tier == "thorough" or deep
     dist = {}
     P()
     # ---------------------------------------------------------------- (a) token lists
-    lines = structured_elide_lines() + gen_elide_lines(rng, 60000 if thorough else 9000)
+    lines = structured_elide_lines() + gen_elide_lines(rng, 60000 if thorough else 6000)
     mlines, answers, factss = [], [], []
     for l in lines:
         ml, a, f = impl_elide(l)
@@ -1127,29 +1268,26 @@ def run(ctx, deep=False):
     # ---------------------------------------------------------------- (b) sweep and (c) sentences in worker processes
     t1 = time.time()
     firsts = resolve_first()
-    fr_forms = lexicon_forms("fr", ctx)
-    fr_vh = [f for f in fr_forms if f[0][0].lower() in VOW + "h"]
-    en_forms = [f for f in lexicon_forms("en", ctx) if f[3] in ("N", "A")]
-    dist["fr_forms_total"] = len(fr_forms)
-    dist["fr_forms_vowel_or_h"] = len(fr_vh)
-    dist["en_forms_N_A"] = len(en_forms)
     set_lang("fr")
     lexfr = P()["getLexicon"]()
     if thorough:
-        sweep_forms = fr_vh
-        en_sweep = en_forms
-        contr_forms = stratified(rng, fr_forms, 60, lambda f: (f[3], f[0][0].lower(), lex_h(lexfr, f[2], f[3])))
+        fr_forms = lexicon_forms("fr", ctx)
+        fr_vh = [f for f in fr_forms if f[0][0].lower() in VOW + "h"]
+        en_forms = [f for f in lexicon_forms("en", ctx) if f[3] in ("N", "A")]
+        dist["fr_forms_total"] = len(fr_forms)
+        dist["fr_forms_vowel_or_h"] = len(fr_vh)
+        dist["en_forms_N_A"] = len(en_forms)
+        sweep_forms = with_source(fr_vh)
+        en_sweep = with_source(en_forms)
+        contr_forms = with_source(stratified(rng, fr_forms, 60, lambda f: (f[3], f[0][0].lower(), lex_h(lexfr, f[2], f[3]))))
     else:
-        sweep_forms = stratified(rng, fr_vh, 12, lambda f: (f[3], f[0][0].lower(), lex_h(lexfr, f[2], f[3])))
-        en_sweep = stratified(rng, en_forms, 40, lambda f: (f[3], f[0][:2].lower()))
-        contr_forms = stratified(rng, fr_forms, 3, lambda f: (f[3], f[0][0].lower(), lex_h(lexfr, f[2], f[3])))
-    sweep_forms, en_sweep, contr_forms = with_source(sweep_forms), with_source(en_sweep), with_source(contr_forms)
+        qf = quick_forms(rng, "fr", 2)
+        sweep_forms = [f for f in qf if f[0][0].lower() in VOW + "h"]
+        contr_forms = stratified(rng, qf, 4, lambda f: (f[3], f[0][0].lower(), lex_h(lexfr, f[2], f[3])))
+        en_sweep = quick_forms(rng, "en", 3)
     dist["sweep_fr_forms"] = len(sweep_forms)
     dist["sweep_en_forms"] = len(en_sweep)
     dist["sweep_contr_forms"] = len(contr_forms)
-    en_lemmas = set()
-    set_lang("en")
-    lexen = P()["getLexicon"]()
     en_items = [(f[0], f[1], (f[0] == f[2] and f[3] == "N")) for f in en_sweep]
     # sentences
     seeds = seed_expressions()
@@ -1188,7 +1326,7 @@ def run(ctx, deep=False):
         ctx.exhaustive = True
         ctx.notes["exhaustive_scope"] = ("every first word of %s x every key of buildLemmataMap('fr') beginning with a vowel or h "
                                          "(%d form/terminal pairs) through PP(F,X); D('a') x every N/A form of buildLemmataMap('en') (%d)"
-                                         % (sorted(firsts), len(fr_vh), len(en_forms)))
+                                         % (sorted(firsts), len(sweep_forms), len(en_sweep)))
     # (c)
     t2 = time.time()
     all_calls, n_exc, n_txt = [], 0, 0
